@@ -108,15 +108,22 @@ def run(ctx):
                     continue
                 lo, co = extract(to)
                 why = None
+                prefix_key = None
                 if li != lo:
                     k = next((i for i in range(min(len(li), len(lo))) if li[i] != lo[i]), min(len(li), len(lo)))
                     why = "literal %d differs: %r -> %r" % (k, _show(li, k), _show(lo, k))
+                    a0, o0 = _show(li, k) or "", _show(lo, k) or ""
+                    for pre in ("u8", "u", "U", "L"):
+                        if a0.startswith(pre + '"') and o0 == a0[len(pre):]:
+                            prefix_key = {"kind": "string-prefix-split", "prefix": pre}
                 elif ci != co:
                     k = next((i for i in range(min(len(ci), len(co))) if ci[i] != co[i]), min(len(ci), len(co)))
                     why = "comment %d differs after the permitted normalisation: %r -> %r (comments in: %d, out: %d)" % (
                         k, ci[k][1][:80] if k < len(ci) else None, co[k][1][:80] if k < len(co) else None, len(ci), len(co))
                 if why:
                     key = _fuse_key(ti, j) if len(ci) != len(co) else None
+                    if key is None and prefix_key is not None:
+                        key = prefix_key
                     if key is None and j.meta.get("kind") == "corpus":
                         key = {"file": os.path.relpath(j.inp, common.REPO), "cfg": os.path.relpath(j.cfg, common.REPO), "kind": "comment-or-literal"}
                     if ctx.violation("%s [run %s]" % (why, j.name), c02._replay(j), key=key, found_input=True):
